@@ -23,6 +23,11 @@ Three parts (BUILDER_GUIDE):
     dictionary object edited in place between the operations (scn['inplace']): object identity is outside the
     model, the outcomes must be those of the fresh-dictionary run and all clauses must hold again;
  3. witness replay of the known finding D20.
+ 4. exception classes from the whole hierarchy (ZOO: builtin classes themselves -- RecursionError, MemoryError, KeyError,
+    StopIteration, AssertionError, OSError subclasses, ... -- and user classes with two bases, custom __init__ signatures,
+    a raising __str__, falsy ones): every model-expressible stream once more with them (gen_zoo; the model sees class
+    numbers), and objects of user-defined Evaluatable classes (subclasses of Option / of the user's own base class, depth 1
+    and 2, a mixin, each overriding evaluate) under the whole oracle and against the model on what they compute.
 """
 import contextlib
 import copy
@@ -151,6 +156,213 @@ FAMILY = [
 ]
 
 
+# ----------------------------------------------------------------------------- exception classes from the whole hierarchy
+#
+# "an arbitrary exception type": besides the 8 classes of core.exc_class (RuntimeError, KeyError, ValueError, TypeError,
+# Exception, ZeroDivisionError, AttributeError subclasses) user code raises INSTANCES OF THE BUILTIN CLASSES THEMSELVES
+# (RecursionError, MemoryError, KeyError, StopIteration, AssertionError, OSError subclasses, LookupError / ArithmeticError
+# subclasses, NotImplementedError, a Warning, an ExceptionGroup, UnicodeDecodeError with its 5-argument constructor) and
+# user classes with two bases, with custom __init__ signatures (keyword-only / two required arguments: they cannot be
+# re-created from a message), with a __str__ / __repr__ that raises, and user subclasses of RecursionError / MemoryError.
+# They are registered under the class numbers 8.. of core.exc_class (a factory: message -> exception object carrying its
+# number), so every stream -- and the model, which only sees the number -- can use them.  Only Exception subclasses:
+# labrea's default handler catches `Exception` (KeyboardInterrupt / SystemExit / GeneratorExit pass through unwrapped on
+# the unchanged library, by design).
+
+def _make_zoo():
+    class TwoBases(KeyError, ValueError):
+        pass
+
+    class OsAndLookup(OSError, LookupError):
+        pass
+
+    class KeywordInit(Exception):
+        def __init__(self, code, *, detail="d"):
+            super().__init__(code, detail)
+            self.code, self.detail = code, detail
+
+    class TwoRequired(Exception):
+        def __init__(self, a, b):
+            super().__init__(a, b)
+            self.a, self.b = a, b
+
+    class NoText(Exception):
+        def __str__(self):
+            raise RuntimeError("this exception has no text")
+
+        __repr__ = __str__
+
+    class DeepRecursion(RecursionError):
+        pass
+
+    class OutOfMemory(MemoryError):
+        pass
+
+    class Falsy(Exception):
+        def __bool__(self):
+            return False
+
+        def __len__(self):
+            return 0
+
+        def __eq__(self, other):
+            return True
+
+        __hash__ = Exception.__hash__
+    entries = [
+        ("RecursionError", lambda m: RecursionError(m)), ("MemoryError", lambda m: MemoryError(m)),
+        ("KeyError", lambda m: KeyError(m)), ("StopIteration", lambda m: StopIteration(m)),
+        ("AssertionError", lambda m: AssertionError(m)), ("FileNotFoundError", lambda m: FileNotFoundError(2, m, "/no/such")),
+        ("PermissionError", lambda m: PermissionError(13, m)), ("TimeoutError", lambda m: TimeoutError(m)),
+        ("IndexError", lambda m: IndexError(m)), ("OverflowError", lambda m: OverflowError(m)),
+        ("UnicodeDecodeError", lambda m: UnicodeDecodeError("utf-8", b"\xff", 0, 1, m)),
+        ("NotImplementedError", lambda m: NotImplementedError(m)), ("UserWarning", lambda m: UserWarning(m)),
+        ("StopAsyncIteration", lambda m: StopAsyncIteration(m)), ("EOFError", lambda m: EOFError(m)),
+        ("ModuleNotFoundError", lambda m: ModuleNotFoundError(m, name="nope")), ("SystemError", lambda m: SystemError(m)),
+        ("user class (KeyError, ValueError)", TwoBases), ("user class (OSError, LookupError)", OsAndLookup),
+        ("user class, keyword-only __init__", lambda m: KeywordInit(m, detail="x")),
+        ("user class, two required __init__ arguments", lambda m: TwoRequired(m, 2)),
+        ("user class whose __str__ / __repr__ raise", NoText), ("user subclass of RecursionError", DeepRecursion),
+        ("user subclass of MemoryError", OutOfMemory), ("user class, falsy and equal to everything", Falsy),
+    ]
+    if "ExceptionGroup" in dir(__import__("builtins")):
+        entries.append(("ExceptionGroup", lambda m: ExceptionGroup(m, [ValueError("inner"), KeyError("k")])))   # noqa: F821
+    zoo = {}
+    for i, (name, mk) in enumerate(entries):
+        n = 8 + i
+
+        def factory(msg, _mk=mk, _n=n):
+            e = _mk(msg)
+            e.labrea_verif_n = _n
+            return e
+        zoo[n] = (name, factory)
+    return zoo
+
+
+ZOO = _make_zoo()
+for _n, (_name, _factory) in ZOO.items():
+    core.EXC_CLASSES[_n] = _factory
+ZOO_NUMS = sorted(ZOO)
+
+
+def rezoo(scn, rng):
+    """the scenario with every exception class number of its user code replaced by one of the zoo"""
+    def cls():
+        return rng.choice(ZOO_NUMS)
+    ft = {}
+    for fid, d in scn["ftable"].items():
+        if d[0] in ("tag_raise_on", "raise_on_inner"):
+            d = (d[0], d[1], cls())
+        elif d[0] == "raise":
+            d = ("raise", cls())
+        elif d[0] == "raise_first":
+            d = ("raise_first", d[1], cls())
+        ft[fid] = d
+    return dict(scn, ftable=ft)
+
+
+# ----------------------------------------------------------------------------- user-defined Evaluatable hierarchies
+#
+# Classes a user writes: subclasses of a CONCRETE library class (Option), of the user's own Evaluatable base class, at
+# depth 1 and 2, and with evaluate() supplied by a mixin -- each overriding evaluate() with code of its own (never calling
+# super().evaluate(): on the library as it is that re-enters the override).  Their objects are evaluatables like any
+# other: a failure inside the override surfaces as an EvaluationError whose source is that object.
+#   ("uopt", variant, key, fid)        variant "d1": class(Option), "d2": class(class(Option)), "mixin": class(Mixin, Option);
+#                                       evaluate: the value under the (top-level) key, handed to user function fid
+#   ("usrc", depth, fid, [children])   depth 0: the user's base class(Evaluatable), 1 / 2: subclasses overriding evaluate again;
+#                                       evaluate: user function fid applied to the children's values
+# For the model these are ("call", fid, [option]) / ("call", fid, children): to_model.
+
+_UCLS = {}
+
+
+def user_classes():
+    if _UCLS:
+        return _UCLS
+    from labrea import Option
+    from labrea.exceptions import KeyNotFoundError
+    from labrea.types import Evaluatable
+
+    class UOpt1(Option):
+        def __init__(self, key, fn):
+            super().__init__(key)
+            self.fn = fn
+
+        def evaluate(self, options):
+            if self.key not in options:
+                raise KeyNotFoundError(self.key, self)
+            return self.fn(options[self.key])
+
+    class UOpt2(UOpt1):
+        def evaluate(self, options):
+            try:
+                v = options[self.key]
+            except KeyError as e:
+                raise KeyNotFoundError(self.key, self) from e
+            return self.fn(v)
+
+    class EvalMixin:
+        def evaluate(self, options):
+            if self.key in options:
+                return self.fn(options[self.key])
+            raise KeyNotFoundError(self.key, self)
+
+    class UOptMixin(EvalMixin, UOpt1):
+        pass
+
+    class Source(Evaluatable):
+        def __init__(self, fn, children):
+            self.fn, self.children = fn, list(children)
+
+        def evaluate(self, options):
+            return self.fn(*[c.evaluate(options) for c in self.children])
+
+        def validate(self, options):
+            for c in self.children:
+                c.validate(options)
+
+        def keys(self, options):
+            return set().union(*[c.keys(options) for c in self.children])
+
+        def explain(self, options=None):
+            return set().union(*[c.explain(options) for c in self.children])
+
+        def __repr__(self):
+            return f"{type(self).__name__}({len(self.children)} children)"
+
+    class Table(Source):
+        def evaluate(self, options):
+            vals = []
+            for c in self.children:
+                vals.append(c.evaluate(options))
+            return self.fn(*vals)
+
+    class SubTable(Table):
+        def evaluate(self, options):
+            vals = tuple(c.evaluate(options) for c in self.children)
+            return self.fn(*vals)
+    _UCLS.update(uopt={"d1": UOpt1, "d2": UOpt2, "mixin": UOptMixin}, usrc={0: Source, 1: Table, 2: SubTable})
+    return _UCLS
+
+
+def to_model(x):
+    """the scenario with the user-class nodes written as the function applications they compute"""
+    if isinstance(x, tuple):
+        if x and x[0] == "uopt":
+            return ("call", x[3], [("option", x[2], None, None)])
+        if x and x[0] == "usrc":
+            return ("call", x[2], [to_model(c) for c in x[3]])
+        if x and x[0] in ("value", "fnvalue"):
+            return x
+        return tuple(to_model(y) for y in x)
+    if isinstance(x, list):
+        return [to_model(y) for y in x]
+    if isinstance(x, dict):
+        return {k: (to_model(v) if k in ("env", "exprs", "kwargs", "callback", "effects", "dispatch", "overloads") or isinstance(k, int) else v)
+                for k, v in x.items()}
+    return x
+
+
 # ----------------------------------------------------------------------------- generation
 
 BADS = [5, lit("b"), None, 1, 0, lit("a"), 2]
@@ -217,8 +429,8 @@ def rewrite(e, f):
     return f(out)
 
 
-def generate(ctx, n):
-    rng = ctx.rng
+def generate(ctx, n, rng=None):
+    rng = ctx.rng if rng is None else rng
     scns = []
     for i in range(n):
         g = FailGen(rng, with_alloptions=(i % 12 == 0), preset_on_ds=0.3 if i % 2 else 0.0,
@@ -567,6 +779,94 @@ def gen_extended(rng, n):
     return scns
 
 
+def gen_zoo(ctx, rng, n):
+    """every model-expressible stream once more (random graphs, raising predicates, failing callbacks / effects, 'fix the
+    dictionary and try again'), the exception classes of the user code drawn from the zoo -> [(scenario, random?)]: as in the
+    streams themselves only the random graphs are extended with 'supply the missing option' operations"""
+    k = max(1, n // 10)
+    directed = gen_predicates(rng, 3 * k) + gen_effects(rng, 2 * k) + gen_repair(rng, 2 * k)
+    return [(rezoo(s, rng), False) for s in directed] + [(rezoo(s, rng), True) for s in generate(ctx, 3 * k, rng=rng)]
+
+
+def gen_userclasses(rng, n):
+    """objects of user-defined Evaluatable classes (user_classes) whose evaluate() override runs raising user code: at the
+    root, nested one or two levels deep (arguments, option defaults, cached nodes, datasets, pipeline sources), below one
+    another, as a coalesce member and as the dispatch of a switch with / without a default; classes of the harness and of
+    the zoo; the failing dictionary, good ones, the empty one, the failing one again"""
+    scns = []
+    keys = [K(10), K(11), K(12)]
+    for i in range(n):
+        g = FailGen(rng)
+        key = rng.choice(keys)
+        bad, good1, good2 = rng.sample(PVALS[:7], 3)
+        cls = rng.choice(ZOO_NUMS) if rng.random() < 0.5 else rng.randint(1, 7)
+        fid = g.newf(("tag_raise_on", ("j", bad), cls) if rng.random() < 0.9 else ("raise", cls))
+        kind = i % 3
+        if kind == 0:
+            u = ("uopt", rng.choice(["d1", "d2", "mixin"]), key, fid)
+        elif kind == 1:
+            kids = [("option", key, None, None)] + ([("value", ("j", rng.choice(PVALS)))] if rng.random() < 0.3 else [])
+            u = ("usrc", rng.choice([0, 1, 1, 2, 2]), fid, kids)
+        else:       # user objects below one another: the chain passes through both
+            inner = ("uopt", rng.choice(["d1", "d2", "mixin"]), key, fid)
+            outer_f = g.newf(("tag",) if rng.random() < 0.6 else ("tag_raise_on", ("t", fid, [("j", good2)]), rng.choice(ZOO_NUMS)))
+            u = ("usrc", rng.choice([1, 2]), outer_f, [inner])
+        exprs = [u, embed(g, embed(g, u))]
+        model_ok = True
+        r = rng.random()
+        if r < 0.3:
+            exprs.append(("coalesce", [u, ("value", ("j", lit("f")))]))
+            model_ok = False       # Option.validate() evaluates a present option: the inherited validate() runs the override (the model's
+                                   # function application validates its arguments only)
+        elif r < 0.6:
+            exprs.append(("switch", u, [(("j", 1), ("value", ("j", 0)))], ("value", ("j", lit("d"))) if rng.random() < 0.6 else None))
+        dicts = [_at(key, bad), _at(key, good1), _at(key, good2), {}]
+        if rng.random() < 0.4:
+            dicts = [_merge(d, {13: rng.choice(PVALS)}) for d in dicts]
+        ops = []
+        for _ in range(rng.randint(6, 9)):
+            ops.append(("evaluate", rng.randrange(len(exprs)), rng.random() < 0.1, False, rng.choice(dicts)))
+        ops += [("evaluate", j, False, False, dicts[0]) for j in range(len(exprs))] + [("evaluate", 0, False, False, dicts[1])]
+        scns.append(dict(ftable=dict(g.ftable), env=dict(g.env), exprs=exprs, ops=ops, ext=True, model_ok=model_ok))
+    return scns
+
+
+CALL_TOK = __import__("re").compile(r"^c[0-9]+\(")
+
+
+def user_correspondence(ctx, scns):
+    """the user-class scenarios against Model/Eval.v on the function applications they compute (to_model): results
+    and calls of user functions, operation by operation -> (ops compared, mismatches)"""
+    items = []
+    for s in scns:
+        if not s.get("model_ok"):
+            continue
+        recs, _, _ = run_history(s)
+        il = [core.canon_names(r["out"] + "|" + " ".join(t for t in r["calls"] if CALL_TOK.match(t))) for r in recs]
+        items.append((s, il, dict(to_model(dict(ftable=s["ftable"], env=s["env"], exprs=s["exprs"])), ops=s["ops"])))
+    if not items:
+        return 0, []
+    outs = ctx.coq_eval("Users_C12", cp.REQ, "", [core.coq_scenario(m) for _, _, m in items], shard=30)
+    n, mism = 0, []
+    for (s, il, m), out in zip(items, outs):
+        ml = out.split(" ## ")
+        if len(ml) != len(il):
+            mism.append(dict(where="user-defined Evaluatable classes vs Model/Eval.v (line count)", scenario_repr=cp.dump_scn(s)))
+            continue
+        for j, (a, b) in enumerate(zip(il, ml)):
+            n += 1
+            res, ev = cp.split(cp.strip_ghost(b))
+            b2 = res + "|" + " ".join(t for t in ev if CALL_TOK.match(t))
+            if not cp.same(a, b2, False):
+                mism.append(dict(where="objects of user-defined Evaluatable classes (subclasses of Option / of the user's own base class overriding "
+                                       "evaluate) vs Model/Eval.v on the function applications they compute", op_index=j, op=repr(s["ops"][j])[:300],
+                                 impl=a, model=b2, scenario_repr=cp.dump_scn(s)))
+                break
+            if "unmod" in res:
+                break
+    return n, mism
+
+
 # ----------------------------------------------------------------------------- running a history, keeping the objects
 
 
@@ -688,6 +988,11 @@ class Builder12(core.Builder):
             else:
                 c = RecContainer(self.w, set(members), core.py_json(e[3]), e[4])
             return Value(c)
+        if e[0] == "uopt":
+            assert len(e[2]) == 1 and e[2][0][0] == "n"
+            return user_classes()["uopt"][e[1]](core.key_text(e[2]), self.w.fn(e[3]))
+        if e[0] == "usrc":
+            return user_classes()["usrc"][e[1]](self.w.fn(e[2]), [self.build(c) for c in e[3]])
         return super().build(e)
 
 
@@ -774,6 +1079,8 @@ def run_history(scn, skip=None):
             except RecursionError as exc:
                 rec["exc"] = exc
                 rec["out"] = "err:fuel:F"
+                if any(exc is r for r in w.raised[n_raised:]):      # raised by user code, not by the interpreter's stack limit
+                    rec["out"] = f"err:{core.classify(exc)[0]}:F"
             except Exception as exc:  # noqa
                 rec["exc"] = exc
                 c, ee = core.classify(exc)
@@ -851,8 +1158,8 @@ def shape_failures(rec, memo):
     from labrea.types import Evaluatable
     exc, X = rec["exc"], rec["obj"]
     out = []
-    if isinstance(exc, RecursionError):
-        return out
+    if isinstance(exc, RecursionError) and not any(exc is r for r in rec["raised"]):
+        return out          # the interpreter's stack limit (a graph too deep for CPython), not a failure of user code
     if not isinstance(exc, EvaluationError):
         return [f"the failure is a {type(exc).__name__}, not an EvaluationError"]
     if rec["phase"] == "evaluate" and exc.source is not X:
@@ -1657,8 +1964,24 @@ def run(ctx):
     for s in repair:
         scns.append(s)
         marks.append([])
+    # exception classes from the whole hierarchy (own generator), through the model like the streams above
+    zrng = random.Random(ctx.seed * 31 + 1201)
+    zoo = []
+    for s, is_random in gen_zoo(ctx, zrng, 120 if ctx.quick else 1600):
+        try:
+            s2, mk = extend_with_supplies(s, zrng, limit=1) if is_random else (s, [])
+        except RecursionError:
+            continue
+        zoo.append(s2)
+        scns.append(s2)
+        marks.append(mk)
+    # objects of user-defined Evaluatable classes (own generator): oracle, plus the model on what they compute
+    users = gen_userclasses(random.Random(ctx.seed * 31 + 1202), 100 if ctx.quick else 1200)
+    extended += users
     impls, models, mism, stats = cp.correspondence(ctx, scns, "Cases_C12")
     mism, tolerated = tolerate(mism, scns, models)
+    user_ops, user_mism = user_correspondence(ctx, users)
+    mism += user_mism
     violations, tagged, distinct = [], {}, set()
     totals = {}
     unique_budget = 400 if ctx.quick else 4000
@@ -1743,21 +2066,31 @@ def run(ctx):
                 "options object: labrea.cached(...) at the root and nested; datasets, with_options copies, cached nodes around datasets; the failing "
                 "dictionary, repaired ones, the failing one again, validate() in between). EVERY history of every stream is run a second time on ONE "
                 "options dictionary object that the caller edits in place between the operations (all oracle clauses again, incl. the histories with a "
-                "failed evaluation deleted); the outcomes must also equal the fresh-dictionary run the model was compared with. non-trivial = the history contains at least one failing AND one succeeding evaluation; distinct by "
+                "failed evaluation deleted); the outcomes must also equal the fresh-dictionary run the model was compared with. Exception zoo: the random, predicate, "
+                "effect and repair streams once more with user code raising instances of builtin classes themselves (RecursionError, MemoryError, KeyError, "
+                "StopIteration, AssertionError, OSError / LookupError / ArithmeticError subclasses, UnicodeDecodeError, an ExceptionGroup, a Warning) and user "
+                "classes with two bases, keyword-only / two-argument __init__, raising __str__, falsy / equal-to-everything (through the model too: class "
+                "numbers). User-defined Evaluatable classes: subclasses of Option (depth 1, depth 2, evaluate supplied by a mixin) and of the user's own "
+                "Evaluatable base class (depth 0, 1, 2) overriding evaluate() with raising user code, at the root, nested, below one another, as coalesce "
+                "member and switch dispatch (oracle; and against the model on the function applications they compute). non-trivial = the history contains at least one failing AND one succeeding evaluation; distinct by "
                 "hash of the scenario",
         "samples": [dict(exprs=repr(s["exprs"])[:400], first_ops=[repr(o)[:160] for o in s["ops"][:3]], observed=il[:3])
                     for s, il in list(zip(scns, impls))[len(fixed):len(fixed) + 3]],
-        "traces_validated_against_impl": stats["ops"],
+        "traces_validated_against_impl": stats["ops"] + user_ops,
         "correspondence_mismatches": mism[:5],
         "violations": violations,
         "known": known,
         "distribution": dict(stats, scenarios=len(scns), random_scenarios=n_random - len(fixed), directed_scenarios=len(directed),
                              oracle_only_scenarios=len(extended), oracle=totals, oracle_on_oracle_only_stream=ext_totals,
-                             repair_scenarios=len(repair), oracle_on_one_dictionary_object_edited_in_place=inplace_totals,
+                             repair_scenarios=len(repair), zoo_scenarios=len(zoo), zoo_classes=[nm for nm, _ in ZOO.values()],
+                             user_class_scenarios=len(users), user_class_ops_vs_model=user_ops, oracle_on_one_dictionary_object_edited_in_place=inplace_totals,
                              in_place_outcomes_differing_from_fresh_dictionary_run=inplace_diffs, in_place_pass_wall_s=t_inplace,
                              oracle_failures_tagged=tagged, correspondence_differences_tolerated=tolerated),
         "exhaustive": False,
-        "assumptions": ["in the streams that run through the model, user code is deterministic and raises the exception classes of the harness (8 base classes incl. KeyError, TypeError, ValueError)",
+        "assumptions": ["in the streams that run through the model, user code is deterministic and raises the exception classes of the harness (8 base classes incl. KeyError, TypeError, ValueError) "
+                        "or of the zoo (Exception subclasses only: KeyboardInterrupt / SystemExit / GeneratorExit are not wrapped by the library as it is, by design of its `except Exception`)",
+                        "a RecursionError is taken for the interpreter's stack limit (no verdict) only when it is NOT an exception object that user code raised during the operation",
+                        "user-defined Evaluatable classes never call super().evaluate() from their override (on the library as it is that re-enters the override: outside the property)",
                         "cyclic template references excluded; floats not generated",
                         "in-place histories replace the dictionary's TOP-LEVEL contents in place (the object handed to evaluate() is the same every time, its "
                         "nested values are fresh objects): mutating a nested value object that an earlier evaluation returned / memoised is the caller editing "
